@@ -10,6 +10,8 @@ INVARIANT RoundTripV1
 INVARIANT OutputWellFormed
 INVARIANT FunctionalAgrees
 INVARIANT RunFormAgrees
+INVARIANT MatchFormAgrees
+INVARIANT StreamAgrees
 INVARIANT LoneEdNeverBeforeRun
 INVARIANT NoBlowUp
 CHECK_DEADLOCK FALSE
